@@ -175,8 +175,8 @@ func (s *Service) refreshAccounts(ctx context.Context) {
 		walletNames := make([]string, 0, len(wallets))
 		for walletName := range wallets {
 			walletNames = append(walletNames, walletName)
-			e.Strs("wallets", walletNames).Msg("Refreshing wallets")
 		}
+		e.Strs("wallets", walletNames).Msg("Refreshing wallets")
 	}
 
 	verificationRegexes := s.accountPathsToVerificationRegexes(s.accountPaths)
